@@ -2076,6 +2076,13 @@ func (r Stack) Reveal() Stack {
 reveal is a private method called by [Stack.Reveal].
 */
 func (r *stack) reveal() (err error) {
+	// a read-only stack reached through its parent
+	// (the exported method tests the receiver only)
+	// is left exactly as it is.
+	if r.positive(ronly) {
+		return
+	}
+
 	r.lock()
 	defer r.unlock()
 
